@@ -523,6 +523,45 @@ def readonly_decode(prog: Program) -> RuleResult:
                         mod,
                         node,
                     )
+        # sub-solutions (loop variables of the product over the children's decodings) are shared too: the same
+        # left sub-solution is combined with every right one
+        subsol = set()
+        for loop in walk_no_nested(fn):
+            if isinstance(loop, ast.For):
+                subsol |= {n.id for n in ast.walk(loop.target) if isinstance(n, ast.Name)}
+
+        def sub_origin(expr: ast.AST, at: ast.AST, depth: int = 0):
+            root = expr
+            while isinstance(root, (ast.Attribute, ast.Subscript)):
+                root = root.value
+            if not isinstance(root, ast.Name) or depth > 4:
+                return None
+            if root.id in subsol and root is not expr:
+                return root.id
+            if root.id in subsol and isinstance(expr, ast.Name):
+                return root.id
+            val = reaching(fn, root.id, at) if hasattr(at, "lineno") else None
+            if val is not None and not isinstance(val, Opaque) and isinstance(val, (ast.Attribute, ast.Subscript, ast.Name)):
+                return sub_origin(val, val if hasattr(val, "lineno") else at, depth + 1)
+            return None
+
+        for node in walk_no_nested(fn):
+            hit = None
+            if isinstance(node, ast.Call) and isinstance(node.func, ast.Attribute) and node.func.attr in MUTATORS:
+                hit = sub_origin(node.func.value, node)
+            elif isinstance(node, (ast.Assign, ast.AugAssign, ast.Delete)):
+                for target in (node.targets if isinstance(node, (ast.Assign, ast.Delete)) else [node.target]):
+                    if isinstance(target, (ast.Subscript, ast.Attribute)):
+                        hit = hit or sub_origin(target.value, node)
+            if hit is not None:
+                n_checked += 1
+                res.fail(
+                    f"{base}/sub-solution[{hit}]",
+                    f"`{short(node)}` changes the sub-solution `{hit}` in place; it is combined with several partners "
+                    "(the product re-uses the same object), so solutions yielded earlier change with it",
+                    mod,
+                    node,
+                )
         if not any(o.construct.startswith(base) and not o.ok for o in res.obligations):
             res.ok(base, f"{n_checked} candidate mutation sites, none on shared data")
     res.floor(4)
